@@ -204,7 +204,7 @@ def safe_repr(x, limit=2000):
     return r[:limit]
 
 
-def run_case(c, fn, args, params, extra_env=None):
+def run_case(c, fn, args, params, extra_env=None, ignore_known=False):
     """call the real function on args (dict), check the contract natively.
     returns (status, failures) with status in 'ok' | 'rejected' (requires false)"""
     env_old = copy.deepcopy(args)
@@ -214,6 +214,14 @@ def run_case(c, fn, args, params, extra_env=None):
                 return 'rejected', []
         except Exception:
             return 'rejected', []
+    if not ignore_known:
+        for kf in getattr(c, 'known_findings', []):
+            if kf.get('exclude'):
+                try:
+                    if eval_clause(kf['exclude'], params, args, env_old, extra_env):
+                        return 'known-finding-class', []
+                except Exception:
+                    pass
     call_args = args
     failures = []
     raised = None
